@@ -31,7 +31,9 @@ SHRINK_LISTS = ["ops"]
 
 OWN = ["add_tag", "itemize", "get_tag_name"]
 PRIVATE = ["_tag_counter", "_tag_names"]
-DUNDER = ["__len__", "__dict__", "__class__", "__init__", "__doc__", "__module__", "__getattr__", "__name__"]
+DUNDER = ["__len__", "__dict__", "__class__", "__init__", "__doc__", "__module__", "__getattr__", "__name__", "__repr__",
+          "__eq__", "__hash__", "__str__", "__setattr__", "__weakref__", "__new__", "__slots__", "__bool__", "__file__",
+          "__spec__", "__builtins__", "__loader__", "__sizeof__"]
 MODGLOBALS = ["TagLibrary", "itemize", "DuplicateTagError", "TagNotFoundError", "_module_library", "add_tag",
               "get_tag_name", "__name__", "__getattr__"]
 ARBITRARY = ["", " ", "two words", "9lives", "naïve", "a.b", "SHEEP\n", "None", "none"]
